@@ -117,8 +117,11 @@ func Route(d *specgen.Doc, basePath, method, path string) RouteVerdict {
 		v.Why += "; a variable is bound to an empty segment (not-found also admissible)"
 	}
 	if matching[0] != winner {
-		v.NotFound = true
-		v.Why += "; a more literal template matches without the method (not-found also admissible)"
+		// "the operation whose path template matches ... requiring the operation's method":
+		// a more literal template that lacks the method is not such an operation, the less
+		// literal one is; "if no such operation exists the not-found handler runs" does not
+		// apply (DESIGN.md section 11, method fallback)
+		v.Why += "; a more literal template matches without the method"
 	}
 	return v
 }
